@@ -23,6 +23,8 @@ mod k_path;
 mod facts;
 #[cfg(feature = "k_gen")]
 mod k_resp;
+#[cfg(feature = "k_cache")]
+mod k_cache;
 
 pub type OpResult = Result<Value, String>;
 
@@ -39,6 +41,8 @@ fn dispatch(op: &str, input: &mut Value) -> OpResult {
     "resp" => k_resp::eval(op, input),
     #[cfg(feature = "k_gen")]
     "client" | "server" => k_resp::eval_op(op, input),
+    #[cfg(feature = "k_cache")]
+    "cache" | "share" => k_cache::eval(op, input),
     _ => Err(format!("unknown-op:{op}")),
   }
 }
